@@ -111,6 +111,37 @@ def check(ctx):
         cq = cls_short(cls.qual)
         ccaps = caps.get(cls.qual, set())
         hd = handles(a, cls)
+        # ---- nothing escapes from the framing step itself (before any packet reaches its handler) ----
+        ent0 = cat.get("dataReceived")
+        n_fr = 0
+        if ent0 is not None:
+            def framer_paths(path, depth=0):
+                yield path
+                for e in path.events:
+                    if e.kind == "LOOP" and depth < 3:
+                        for bp in e.a["body"]:
+                            yield from framer_paths(bp, depth + 1)
+            seen_fr = set()
+            for p0 in ent0.paths:
+                for bp in framer_paths(p0):
+                    if any(x.kind == "CONSTMAP" for x in bp.walk()):
+                        continue          # reached the dispatcher: judged per packet type below
+                    n_fr += 1
+                    if bp.exit_kind() != "raise":
+                        continue
+                    src = [x for x in bp.walk() if x.kind in ("BUFINDEX", "RAISE", "UNDEFINED", "UNRESOLVED", "NONE_DEREF", "BADCALL", "NOTCALLABLE")]
+                    at = src[-1] if src else None
+                    key = (at.func if at else "", show(bp.exit[1]))
+                    if key in seen_fr:
+                        continue
+                    seen_fr.add(key)
+                    ctx.ob("E3", "%s no exception escapes from the framing step" % cq, False, where=where(at) if at else "%s:%d" % (ent0.func.file, ent0.func.node.lineno),
+                           function=at.func if at else ent0.func.qual, construct="%s/framing-escape/%s" % (at.func if at else ent0.func.qual, show(bp.exit[1])),
+                           msg="%s escapes from dataReceived while the bytes received are being cut into packets%s" % (
+                               show(bp.exit[1]), (": %s[%s] is read without a test that so many bytes have arrived (conditions %s)" % (
+                                   show(at.a["base"]), show(at.a["key"]), [repr(c) for c in at.conds][-2:])) if at is not None and at.kind == "BUFINDEX" else ""))
+            ctx.ob("E3", "%s the framing step raises nothing on any split of the input (%d paths)" % (cq, n_fr), True, where="%s:%d" % (ent0.func.file, ent0.func.node.lineno),
+                   construct="%s/framing-escape/none" % cls.qual, nontrivial=n_fr > 0) if not seen_fr else None
         for tr in contexts(cat):
             if tr.kind not in ("NET", "TIMER"):
                 continue
